@@ -38,3 +38,230 @@ Example C09_model_can_panic_outside_types :
   build ex_fcal ex_env Checked (fun l => l)
     [BWire 1 2 (DOk {| a_board := None; a_chan := A32 2; a_wf := [0; 0; 4294967296]%Z |})] = Panic.
 Proof. vm_compute. reflexivity. Qed.
+
+(* ===== avalanches() / vertex(): pins imported from Signal/AvalTotal_pins.v ===== *)
+From Coq Require Import Floats.
+From Coq Require Import Permutation.
+From AG Require Import Base.Prelude Base.Res Signal.Ring Signal.Ring_proofs Signal.Avalanches Signal.Greedy
+  Signal.AvalTotal Signal.AvalTotal_proofs.
+From AG Require Recon.Cluster Recon.Fit.
+
+(* (1) contiguous_ranges: the scan stays inside the 256 slots, the two loops terminate within the stated fuel,
+   and the merge of the first and last block never pops or swap_removes an empty vector - for EVERY occupancy
+   of the 256 slots (no "not the full ring" premise).  The result is the pure function of C13. *)
+Theorem C09_contiguous_ranges_total : forall (sig : Type) (ws : list (option sig)),
+  N.of_nat (length ws) = NW ->
+  contiguous_ranges_res ws = Ok (contiguous_ranges ws) /\ contiguous_ranges_res ws <> Panic.
+Proof. exact contiguous_ranges_total_lemma. Qed.
+Print Assumptions C09_contiguous_ranges_total.
+
+(* the merge step alone, for ANY vector of ranges (lines 59-68): `pop().unwrap()` and `swap_remove(0)` are only
+   reached behind `len() > 1` *)
+Theorem C09_merge_seam_total : forall ranges : list (N * N), merge_seam_res ranges = Ok (merge_seam ranges).
+Proof. exact merge_seam_total_lemma. Qed.
+Print Assumptions C09_merge_seam_total.
+
+(* (2) on a block returned by contiguous_ranges: it has at least one wire (`.max().unwrap()`), every wire of it
+   is inside the array and present (`wire_signals[i].as_ref().unwrap()`, `.nth(j).unwrap()`), and
+   `256 - first + last` does not underflow *)
+Theorem C09_wire_block_total : forall (sig : Type) (slen : sig -> nat) (ws : list (option sig)) (r : N * N),
+  N.of_nat (length ws) = NW -> In r (contiguous_ranges ws) ->
+  range_to_indices r <> [] /\
+  length (block_sigs ws r) = length (range_to_indices r) /\
+  problem_dimensions_res slen ws r = Ok (max_slen slen (block_sigs ws r), range_to_len r) /\
+  y_matrix_res slen ws r = Ok (max_slen slen (block_sigs ws r), block_sigs ws r).
+Proof. exact wire_block_total_lemma. Qed.
+Print Assumptions C09_wire_block_total.
+
+(* wire_range_deconvolution on such a block: with the shape law of the solve, every y.read(row, column) is in
+   bounds; the result pairs each wire of the block with its deconvolved column *)
+Theorem C09_wire_range_deconvolution_total :
+  forall (sig amp : Type) (azero : amp) (slen : sig -> nat) (solve : nat -> list sig -> list (list amp))
+         (wdec : list amp -> res (list amp)) (ws : list (option sig)) (r : N * N),
+  faer_shape solve -> kernel_total wdec ->
+  N.of_nat (length ws) = NW -> In r (contiguous_ranges ws) ->
+  wire_range_deconvolution_res slen solve wdec ws r
+  = Ok (combine (range_to_indices r) (D_of slen solve wdec (block_sigs ws r))).
+Proof. exact wire_range_deconvolution_total_lemma. Qed.
+Print Assumptions C09_wire_range_deconvolution_total.
+
+(* (3) imported from C17: for ALL binary64 waveforms (whatever the cross-talk solve returned) the deconvolved
+   vector is empty or has one entry per sample; every entry is finite, has a clear sign bit, is not a NaN *)
+Theorem C09_ls_deconv_no_nan : forall (signal response : list float) (offs las : list nat) (out : list float),
+  ls_deconv_f signal response offs las = Ok out ->
+  (out = [] \/ length out = length signal) /\
+  Forall (fun x => f_fin x /\ f_ge0 x /\ f64_num x) out.
+Proof. exact ls_deconv_no_nan_lemma. Qed.
+Print Assumptions C09_ls_deconv_no_nan.
+
+(* ... and it does return (no panic at the slicing, the assert, the reduce().unwrap() or input[i]) when the
+   response windows of the grid exist and are negative *)
+Theorem C09_ls_deconv_returns : forall (response : list float) (offs las : list nat),
+  response_windows_ok response offs las ->
+  forall signal, exists out, ls_deconv_f signal response offs las = Ok out.
+Proof. exact ls_deconv_f_total. Qed.
+Print Assumptions C09_ls_deconv_returns.
+
+(* the hypothesis response_windows_ok in the form the harness measures it on the implementation's tables
+   (rel17table): the first 13 bins of the wire response, bins 3..17 of the pad response, exist and are negative *)
+Theorem C09_response_windows_from_table : forall wire_response pad_response : list float,
+  (13 <= length wire_response)%nat -> (forall k, (k < 13)%nat -> f_neg (nth k wire_response 0%float) = true) ->
+  (17 <= length pad_response)%nat -> (forall k, (3 <= k < 17)%nat -> f_neg (nth k pad_response 0%float) = true) ->
+  response_windows_ok wire_response (range_incl 0 1) (range_incl 3 12) /\
+  response_windows_ok pad_response (range_incl 3 5) (range_incl 7 12).
+Proof. exact (fun w p a b c d => conj (wire_windows_from_table w a b) (pad_windows_from_table p c d)). Qed.
+Print Assumptions C09_response_windows_from_table.
+
+(* (4) match_column_inputs for the 8 wires of a pad column: t_max exists, TpcWirePosition::try_from and
+   TpcPadRow::try_from(row - 1) succeed, both sorts' partial_cmp().unwrap() succeed - for ALL input values *)
+Theorem C09_match_column_total :
+  forall (amp zt : Type) (azero : amp) (apos : amp -> bool) (agt : amp -> amp -> bool)
+         (pcmp : amp -> amp -> option comparison) (zf : N -> amp -> amp -> amp -> zt)
+         (sortW : list (N * amp) -> list (N * amp)) (sortP : list (zt * amp) -> list (zt * amp))
+         (num : amp -> Prop) (column : N) (wire_inputs pci : list (list amp)),
+  cmp_laws apos agt pcmp num ->
+  length wire_inputs = 8%nat -> N.of_nat (length pci) = NROWS ->
+  let (first, last) := pad_column_to_wires column in
+  match_column_inputs_res azero apos agt pcmp zf sortW sortP (Nseq first (last - first)) wire_inputs pci
+  = Ok (match_column_inputs azero apos agt zf sortW sortP (Nseq first (last - first)) wire_inputs pci).
+Proof. exact match_column_total_lemma. Qed.
+Print Assumptions C09_match_column_total.
+
+(* the three comparison facts hold for binary64 (FloatAxioms ltb_spec, compare_spec) *)
+Theorem C09_f64_cmp_laws : cmp_laws fpos fgt f_pcmp f64_num.
+Proof. exact f64_cmp_laws. Qed.
+Print Assumptions C09_f64_cmp_laws.
+
+(* (5) any sample type: avalanches() returns the value of the C13 skeleton; timestamp() is a field read *)
+Theorem C09_avalanches_total :
+  forall (sig amp zt : Type) (azero : amp) (apos : amp -> bool) (agt : amp -> amp -> bool)
+         (pcmp : amp -> amp -> option comparison) (zf : N -> amp -> amp -> amp -> zt) (slen : sig -> nat)
+         (solve : nat -> list sig -> list (list amp)) (wdec : list amp -> res (list amp))
+         (pdec : sig -> res (list amp))
+         (sortW : list (N * amp) -> list (N * amp)) (sortP : list (zt * amp) -> list (zt * amp))
+         (num : amp -> Prop) (ev : main_event sig),
+  faer_shape solve -> kernel_total wdec -> kernel_total pdec -> cmp_laws apos agt pcmp num ->
+  event_shape ev ->
+  avalanches_res azero apos agt pcmp zf slen solve wdec pdec sortW sortP (wire_signals ev) (pad_signals ev)
+  = Ok (avalanches azero apos agt zf (D_of slen solve wdec) (P_of pdec) sortW sortP (wire_signals ev) (pad_signals ev))
+  /\ timestamp_res ev = Ok (trigger_timestamp ev).
+Proof. exact avalanches_total_lemma. Qed.
+Print Assumptions C09_avalanches_total.
+
+(* (5) binary64, the per-channel kernels being the C17 model of ls_deconvolution: for every event, every
+   waveform content (NaN, infinities, i16 extremes times any gain), any centroid function and any sorts *)
+Theorem C09_avalanches_f64_total :
+  forall (zf : N -> float -> float -> float -> float)
+         (solve : nat -> list (list float) -> list (list float)) (wire_response pad_response : list float)
+         (sortW : list (N * float) -> list (N * float)) (sortP : list (float * float) -> list (float * float))
+         (ev : main_event (list float)),
+  faer_shape solve ->
+  response_windows_ok wire_response (range_incl 0 1) (range_incl 3 12) ->
+  response_windows_ok pad_response (range_incl 3 5) (range_incl 7 12) ->
+  event_shape ev ->
+  (exists avs, avalanches_res_f64 zf solve wire_response pad_response sortW sortP (wire_signals ev) (pad_signals ev)
+               = Ok avs) /\
+  avalanches_res_f64 zf solve wire_response pad_response sortW sortP (wire_signals ev) (pad_signals ev) <> Panic /\
+  timestamp_res ev = Ok (trigger_timestamp ev).
+Proof. exact avalanches_f64_total_lemma. Qed.
+Print Assumptions C09_avalanches_f64_total.
+
+(* (6) vertex() = filter_map(try_into().ok()) . cluster_spacepoints . filter_map(Track::try_from(..).ok()) .
+   find_vertices (lib.rs:394-406).  The wrapper itself has no panic site of its own: it returns whenever its four
+   stages do (an Err of a stage is dropped by `.ok()`, a panic of a stage unwinds). *)
+Theorem C09_vertex_wrapper_total :
+  forall (A SP TR V : Type) (sp_of : A -> res SP) (cluster : list SP -> res (list (list SP) * list SP))
+         (fit : list SP -> res TR) (find : list TR -> res (option V * list TR)) (Pc : list SP -> Prop)
+         (avs : list A),
+  (forall a, In a avs -> sp_of a <> Panic) ->
+  (forall pts, exists cl rem, cluster pts = Ok (cl, rem) /\ forall c, In c cl -> Pc c) ->
+  (forall c, Pc c -> fit c <> Panic) ->
+  (forall trs, exists r, find trs = Ok r) ->
+  exists v, vertex_res sp_of cluster fit find (Ok avs) = Ok v.
+Proof. exact (@vertex_res_total). Qed.
+Print Assumptions C09_vertex_wrapper_total.
+
+(* PARTIAL.  Full statement wanted: for every event built from banks, vertex() returns.
+   Proved: with the stages instantiated by the models of C15 (cluster_spacepoints_pub over the equality classes
+   of the space points) and C14 (fit_cluster_to_helix, find_vertices), vertex() returns PROVIDED the numeric
+   hypotheses of C14 (N1-N5, V1-V5: the named gaps N3/N4/V3/V4 - cost oracles never NaN, Nelder-Mead returns a
+   vector - are NOT proved anywhere) and
+     (Z1) SpacePoint::try_from does not panic on any avalanche of the event.
+   Where NaN-freedom of (r, phi, z) has to come from - it is needed twice: C15's model identifies a point with its
+   equality class, which exists only if SpacePoint's derived `==` is reflexive (no NaN coordinate:
+   `position(|p| p == x).unwrap()` in the remainder bookkeeping panics otherwise), and (Z1):
+     r    is a value of the drift table (C18_radius_in_range): a number whenever the lookup returns;
+     phi  is the wire azimuth minus a tabulated correction: a number;
+     z    is the centroid zf(row, first, middle, last) = z_row + w / (2 ln(m^2/(f l))) * ln(l/f) of matching.rs:80-83.
+          f, m, l are finite and positive (C09_ls_deconv_no_nan), but z IS NaN when m^2 and f*l both overflow
+          (f, l, m >= 1.4e154), when f*l underflows to 0 while l/f overflows, or when m^2/(f l) rounds to 1 with
+          l = f: none of these is excluded by the types.  And a NaN z is not rejected but PANICS:
+          DriftTables::at (drift.rs:60-71) passes `z_abs > max` (false on NaN) and then
+          `.find(|(_, ub)| ub >= &z_abs).unwrap()` finds nothing (observed on the implementation: corpus/C18
+          `drift <t> <phi> 7ff8000000000000` -> panic).  Such amplitudes cannot be produced from i16 samples, the
+          shipped gains and the shipped response (an amplitude is at most |sample| / |response bin|), but that
+          bound is a numeric fact about the tables which is not proved here.
+   So the remaining hypothesis is (Z1), i.e. "no pad-hit centroid of the event is NaN" + C18's lookup totality. *)
+Theorem C09_vertex_total_partial :
+  forall (A F vpoint : Type) (sp_of : A -> res Cluster.point)
+    (bins : Cluster.point -> list Cluster.bin) (near : Cluster.point -> Cluster.point -> bool)
+    (p_r p_x p_y : Cluster.point -> F) (flt feq : F -> F -> bool)
+    (fcmp : F -> F -> option comparison) (fnan : F -> bool) (fadd fsub fmul : F -> F -> F)
+    (fhalf fabs : F -> F) (fzero : F)
+    (guess6 : list Cluster.point -> Cluster.point -> Cluster.point -> Cluster.point -> list F) (bump : F -> F)
+    (point_val closest : list F -> Cluster.point -> F)
+    (nm : (list F -> res F) -> list (list F) -> res (option (list F))) (sd_tol_ok : bool)
+    (teq : Fit.track F -> Fit.track F -> bool) (t_zb t_rad : Fit.track F -> F) (is_primary : Fit.track F -> bool)
+    (close_z : F -> F -> bool) (sumF : list F -> F) (mean_z : list (Fit.track F) -> F)
+    (sortP : list (Fit.track F) -> list (Fit.track F)) (vpoint_of : list F -> vpoint)
+    (vcost_val : list (Fit.track F) -> list F -> Fit.track F -> F) (vguess : F -> list F)
+    (tclosest : Fit.track F -> vpoint -> F),
+  (* C15 *) (forall p, NoDup (bins p)) ->
+  (* N1 *) (forall x y, fnan x = false -> fnan y = false -> fcmp x y <> None) ->
+  (* N2 *) (forall a b p, fnan (Fit.dev F Cluster.point p_r fsub fabs (fhalf (fadd (p_r a) (p_r b))) p) = false) ->
+  (* N3 *) (forall p q, fnan (point_val p q) = false) ->
+  (* N4 = V4 *) (forall (c : list F -> res F) s n,
+              (forall p, length p = n -> c p <> Panic /\ forall k, c p <> Err k) ->
+              Forall (fun v => length v = n) s -> s <> [] ->
+              exists v, nm c s = Ok (Some v) /\ length v = n) ->
+  (* N5 *) (forall pts f m l, length (guess6 pts f m l) = 6%nat) -> sd_tol_ok = true ->
+  (* std *) (forall l, Permutation (sortP l) l) ->
+  (* V1 *) (forall a b, fcmp (t_zb a) (t_zb b) <> None) ->
+  (* V2 *) (forall x y, fcmp (sumF (map t_rad x)) (sumF (map t_rad y)) <> None) ->
+  (* V3 *) (forall ts p t, fnan (vcost_val ts p t) = false) ->
+  (forall z, length (vguess z) = 3%nat) ->
+  (* V5 *) (forall t, teq t t = true) -> (forall a b, teq a b = true -> teq b a = true) ->
+  (forall a b c, teq a b = true -> teq b c = true -> teq a c = true) ->
+  forall avs : list A,
+  (* Z1 *) (forall a, In a avs -> sp_of a <> Panic) ->
+  exists v,
+    vertex_res sp_of (Cluster.cluster_spacepoints_pub bins near)
+      (Fit.fit_cluster_to_helix F Cluster.point p_r p_x p_y flt feq fcmp fnan fadd fsub fmul fhalf fabs fzero
+         guess6 bump point_val closest nm sd_tol_ok)
+      (Fit.find_vertices F vpoint fcmp fnan fadd fzero bump nm sd_tol_ok (Fit.track F) teq t_zb t_rad is_primary
+         close_z sumF mean_z sortP vpoint_of vcost_val vguess tclosest)
+      (Ok avs) = Ok v.
+Proof. exact vertex_total_partial_lemma. Qed.
+Print Assumptions C09_vertex_total_partial.
+
+(* the hypotheses are satisfiable on a non-trivial value, and the model is not vacuously total *)
+Example C09_avalanches_hypotheses_satisfiable :
+  faer_shape solve_pad /\
+  response_windows_ok resp18m (range_incl 0 1) (range_incl 3 12) /\
+  response_windows_ok resp18m (range_incl 3 5) (range_incl 7 12) /\
+  event_shape ex_event.
+Proof. exact (conj solve_pad_shape (conj resp18m_wire (conj resp18m_pad ex_event_shape))). Qed.
+Example C09_avalanches_example_run :
+  ex_run ex_ws ex_pads = Ok [Aval 100 1 4%float 3%float 4%float].
+Proof. vm_compute. reflexivity. Qed.
+(* with 101 instead of 256 wire slots the scan indexes out of bounds *)
+Example C09_avalanches_model_can_panic : ex_run (firstn 101 ex_ws) ex_pads = Panic.
+Proof. vm_compute. reflexivity. Qed.
+(* a vector handed to swap_remove(0) would panic if it were empty: the primitive is not total by itself *)
+Example C09_swap_remove_can_panic : unwrap (@swap_remove0 (N * N) []) = Panic.
+Proof. reflexivity. Qed.
+(* (Z1) is necessary: a stage that panics unwinds through filter_map(.. .ok()) *)
+Example C09_vertex_wrapper_propagates_panic :
+  vertex_res (A := unit) (SP := unit) (TR := unit) (V := unit) (fun _ => Panic) (fun l => Ok ([], l))
+             (fun _ => Ok tt) (fun l => Ok (None, l)) (Ok [tt]) = Panic.
+Proof. reflexivity. Qed.
